@@ -790,6 +790,7 @@ int run_io(struct eventloop *loop, const struct cmdline_config *config)
 	    {
 	        .request_target = config->request_target,
 	        .create = alloc_websocket_peer,
+	        .destroy = destroy_websocket_peer,
 	        .on_header_field = websocket_upgrade_on_header_field,
 	        .on_header_value = websocket_upgrade_on_header_value,
 	        .on_headers_complete = websocket_upgrade_on_headers_complete,
